@@ -83,6 +83,34 @@ STRENGTHENED = {
                         "value menu got 0",
     "C16-mut_C16-r3m1": "a label-expansion defect (unit of a repeated substrate chosen by argument index): outside the families C16 "
                         "compares; caught by C05, the owning check, see C05-mut_C16-r3m1",
+    "C14-mut_C14-r3m1": "missed at first (relative time grid aliased by np.asarray and shifted in place); the caller keeps and reuses "
+                        "its grid object (Run.grid), SimulatorProto action Again",
+    "C18-mut_C18-r3m1": "missed at first (abs(old) in the elasticity quotient); Mca network `sgn` with a negative parameter and a "
+                        "negative state, invariant SignedWitness",
+    "C18-mut_C18-r3m2": "missed at first (supplied initial values remembered as numbers); Mca network `iac` holding assignment rules, "
+                        "raw variables / parameters compared before and after every call",
+    "C19-mut_C19-r3m2": "missed at first (result-file names made shell-friendly, distinct keys collide); CacheCrash: stored entry Nm(k), "
+                        "invariant Injective, sibling keys in every family, wrong instance LossyNames",
+    "C20-mut_C20-r3m2": "missed at first (per-experiment overrides of a joint fit leak into later experiments); spec/FitJoint.tla",
+    # ---- round 4 ----------------------------------------------------------------------------------------------------
+    "C01-mut_C01-r4m1": "missed at first (coefficient memo keyed by flux name in the named right-hand side); ModelEval StMenu got one "
+                        "flux with two different state- / time-dependent coefficients on two variables",
+    "C01-mut_C01-r4m2": "NOT JUDGED: needs a supplied table whose flux columns contradict the row's state; such tables are outside the "
+                        "property's domain (a state is time + variable values) and the unchanged library itself answers them "
+                        "inconsistently (get_right_hand_side_time_course trusts a supplied flux column, get_fluxes_time_course "
+                        "recomputes it)",
+    "C02-mut_C02-r4m1": "an edit-history defect (update_derived without cache invalidation): outside what C02 exercises; caught by C03, "
+                        "see C03-mut_C02-r4m1",
+    "C03-mut_C03-r4m1": "covered by an extension made on reading the change, before the trial (validation after the side effect in "
+                        "remove_variable needs a stoichiometry addressing a name that is not a variable): remove_variable keeping "
+                        "stoichiometries, reactions declared before their variable, seed `dangle`, variable-only alphabet to depth 2/3",
+    "C03-mut_C03-r4m2": "covered by the same extension (update_surrogate given a replacement object): op replace_surrogate",
+    "C11-mut_C11-r4m1": "missed at first (parsed function bodies cached by module + qualified name); fnlib_alias.TWIN: two closures of "
+                        "one factory, a third of the models",
+    "C11-mut_C11-r4m2": "missed at first (model symbols created nonnegative: sign tests fold at generation time); FnLib `pos` (test "
+                        "against the literal 0) and negative states at the third observation point",
+    "C13-mut_C13-r4m2": "an edit-history defect (make_variable_static turning an initial assignment into a derived quantity): outside "
+                        "what C13 exercises; caught by C03, see C03-mut_C13-r4m2",
 }
 rows = []
 for d in sorted(p for p in root.iterdir() if p.is_dir()):
